@@ -11,14 +11,14 @@ EXTENDS XcpNSOps
 (***************************************************************************)
 CONSTANT Scenarios              \* set of scenario records explored
 
-VARIABLES sc, fs, visited, pending, half, st, exit,
+VARIABLES sc, fs, visited, pending, half, checked, st, exit,
           vis, refr, prot      \* Visits(sc), Reference(sc), Protected(sc): functions of sc, computed once per behaviour
-vars == <<sc, fs, visited, pending, half, st, exit, vis, refr, prot>>
+vars == <<sc, fs, visited, pending, half, checked, st, exit, vis, refr, prot>>
 
 Init ==
   /\ sc \in Scenarios
   /\ fs = FS0(sc)
-  /\ visited = {} /\ pending = {} /\ half = {}
+  /\ visited = {} /\ pending = {} /\ half = {} /\ checked = {}
   /\ st = "start" /\ exit = -1
   /\ vis = (IF Rejected(sc) THEN {} ELSE Visits(sc))
   /\ refr = Reference(sc)
@@ -27,7 +27,7 @@ Init ==
 MainValidate ==
   /\ st = "start"
   /\ IF Rejected(sc) THEN st' = "done" /\ exit' = 1 ELSE st' = "walk" /\ exit' = exit
-  /\ UNCHANGED <<sc, fs, visited, pending, half, vis, refr, prot>>
+  /\ UNCHANGED <<sc, fs, visited, pending, half, checked, vis, refr, prot>>
 
 \* next entry the walker may yield: sources in order, a directory before what is inside it
 CanVisit(v) ==
@@ -48,31 +48,37 @@ WalkStep ==
                  IF r.ok THEN fs' = r.fs /\ UNCHANGED <<st, pending>>
                          ELSE st' = "fail" /\ UNCHANGED <<fs, pending>>
           ELSE pending' = pending \cup {v} /\ UNCHANGED <<fs, st>>
-  /\ UNCHANGED <<sc, exit, half, vis, refr, prot>>
+  /\ UNCHANGED <<sc, exit, half, checked, vis, refr, prot>>
 
 WorkStep ==
   /\ st \in {"walk", "fail"}            \* after a failure the other threads may still finish what they hold
   /\ \/ \E v \in pending :
-          IF NeedsUnlink(fs, sc, v)
+          IF v.k = "file" /\ "IdentityByPathOnly" \in Deviations /\ v \notin checked /\ ~SameFile(fs, v.from, v.to)
+            THEN \* deviation: the identity test passes now; the create/truncate is a later step
+                 /\ checked' = checked \cup {v} /\ UNCHANGED <<fs, pending, half, st>>
+          ELSE IF v.k = "file" /\ v \in checked
+            THEN LET r == CreateFile(fs, v.to, v.c) IN
+                 /\ pending' = pending \ {v} /\ fs' = r.fs /\ st' = (IF r.ok THEN st ELSE "fail") /\ UNCHANGED <<half, checked>>
+          ELSE IF NeedsUnlink(fs, sc, v)
             THEN LET u == Unlink(fs, v.to) IN           \* first half: remove_file
                  /\ pending' = pending \ {v}
-                 /\ fs' = u.fs
+                 /\ fs' = u.fs /\ UNCHANGED checked
                  /\ IF u.ok THEN half' = half \cup {v} /\ st' = st ELSE half' = half /\ st' = "fail"
             ELSE LET r == ExecOp(fs, sc, v) IN
                  /\ pending' = pending \ {v}
                  /\ fs' = r.fs
                  /\ st' = IF r.ok THEN st ELSE "fail"
-                 /\ half' = half
+                 /\ half' = half /\ UNCHANGED checked
      \/ \E v \in half :                                 \* second half: mknod
           LET r == Mknod(fs, v.to, v.k, v.c) IN
-          /\ half' = half \ {v} /\ fs' = r.fs /\ st' = (IF r.ok THEN st ELSE "fail") /\ pending' = pending
+          /\ half' = half \ {v} /\ fs' = r.fs /\ st' = (IF r.ok THEN st ELSE "fail") /\ pending' = pending /\ UNCHANGED checked
   /\ UNCHANGED <<sc, visited, exit, vis, refr, prot>>
 
 Finish ==
   \/ /\ st = "walk" /\ visited = vis /\ pending = {} /\ half = {}
-     /\ st' = "done" /\ exit' = 0 /\ UNCHANGED <<sc, fs, visited, pending, half, vis, refr, prot>>
+     /\ st' = "done" /\ exit' = 0 /\ UNCHANGED <<sc, fs, visited, pending, half, checked, vis, refr, prot>>
   \/ /\ st = "fail"
-     /\ st' = "done" /\ exit' = 1 /\ UNCHANGED <<sc, fs, visited, pending, half, vis, refr, prot>>
+     /\ st' = "done" /\ exit' = 1 /\ UNCHANGED <<sc, fs, visited, pending, half, checked, vis, refr, prot>>
 
 Done == st = "done" /\ UNCHANGED vars
 
